@@ -1861,6 +1861,35 @@ func ruleMuxWindow(c *Ctx) {
 		}
 		for _, call := range f.Calls() {
 			if nm := p.CalleeName(f, call); timing[nm] {
+				// connect parameters that keep gRPC's own connect deadline (20 s, well
+				// above the pending window) only change how fast a failed attempt is
+				// retried
+				if nm == "google.golang.org/grpc.WithConnectParams" && len(call.Args) == 1 {
+					cl, ok := ast.Unparen(p.Deref(f, call.Args[0])).(*ast.CompositeLit)
+					if !ok {
+						// a package-level variable initialised with the literal and never written
+						if v, isV := identObj(f.Pkg.TypesInfo, call.Args[0]).(*types.Var); isV && v.Pkg() != nil && v.Parent() == v.Pkg().Scope() && p.pkgVarNeverWritten(v) {
+							cl = p.pkgVarLiteral(f, v)
+							ok = cl != nil
+						}
+					}
+					if ok {
+						keeps := false
+						for _, el := range cl.Elts {
+							if kv, ok := el.(*ast.KeyValueExpr); ok {
+								if k, ok := kv.Key.(*ast.Ident); ok && k.Name == "MinConnectTimeout" {
+									if d := durationConst(f.Pkg.TypesInfo, kv.Value); d >= 20*int64(1e9) {
+										keeps = true
+									}
+								}
+							}
+						}
+						if keeps {
+							c.R.Hold("R-MUX/window", p.Pos(call), f.Name, "dial option "+shortName(nm), "MinConnectTimeout is a constant of at least gRPC's default 20 s", true)
+							continue
+						}
+					}
+				}
 				nA++
 				c.R.Violate("R-MUX/window", p.Pos(call), f.Name, "dial option "+shortName(nm),
 					"the library adds a dial option that changes gRPC's connect timing (deadline, back-off, blocking, idle or keep-alive behaviour): a multiplexed dial whose knock is answered within the pending window can then be torn down by gRPC itself", nil)
@@ -1924,5 +1953,124 @@ func ruleMuxWindow(c *Ctx) {
 		if !bad {
 			c.R.Hold("R-MUX/window", p.Pos(f.Node()), f.Name, "Dial does not wait for readiness", "no WaitForStateChange/Connect/GetState on the dialled connection", true)
 		}
+	}
+}
+
+// pkgVarNeverWritten: no function of the module assigns the package-level
+// variable v (whole, a field or an element of it) or takes its address.
+func (p *Prog) pkgVarNeverWritten(v *types.Var) bool {
+	ok := true
+	for _, f := range p.Funcs {
+		if f.Body == nil {
+			continue
+		}
+		info := f.Pkg.TypesInfo
+		ast.Inspect(f.Body, func(x ast.Node) bool {
+			switch s := x.(type) {
+			case *ast.AssignStmt:
+				for _, l := range s.Lhs {
+					if rootObjOf(info, l) == types.Object(v) {
+						ok = false
+					}
+				}
+			case *ast.IncDecStmt:
+				if rootObjOf(info, s.X) == types.Object(v) {
+					ok = false
+				}
+			case *ast.UnaryExpr:
+				if s.Op == token.AND && rootObjOf(info, s.X) == types.Object(v) {
+					ok = false
+				}
+			}
+			return ok
+		})
+	}
+	return ok
+}
+
+// rootObjOf strips selectors, indexing and parentheses and returns the object
+// of the identifier underneath.
+func rootObjOf(info *types.Info, e ast.Expr) types.Object {
+	for {
+		switch x := ast.Unparen(e).(type) {
+		case *ast.SelectorExpr:
+			if _, isPkg := info.Uses[identOrNil(x.X)].(*types.PkgName); isPkg {
+				return info.Uses[x.Sel]
+			}
+			e = x.X
+		case *ast.IndexExpr:
+			e = x.X
+		case *ast.StarExpr:
+			e = x.X
+		case *ast.Ident:
+			return identObj(info, x)
+		default:
+			return nil
+		}
+	}
+}
+
+func identOrNil(e ast.Expr) *ast.Ident {
+	id, _ := ast.Unparen(e).(*ast.Ident)
+	return id
+}
+
+// ---------- R-COPY/sockcfg: the client's socket configuration is its own copy ----------
+
+// ruleSockCfgOwn: Start writes the directory it created into
+// Client.unixSocketCfg.socketDir, and Kill removes what it finds there. That is
+// only right while the value is private to the client: whatever is stored
+// into Client.unixSocketCfg (by assignment or in a composite literal) is a copy
+// of the caller's UnixSocketConfig (`*cfg`), the address of a local copy, or a
+// fresh literal - never the caller's pointer itself, which other clients built
+// from the same ClientConfig would share.
+func ruleSockCfgOwn(c *Ctx) {
+	p := c.P
+	fld := p.FieldObj(modPath, "Client", "unixSocketCfg")
+	cfgF := p.FieldObj(modPath, "ClientConfig", "UnixSocketConfig")
+	if fld == nil || cfgF == nil {
+		c.R.Undecided("R-COPY/sockcfg", "", "anchor", "Client.unixSocketCfg or ClientConfig.UnixSocketConfig not found")
+		return
+	}
+	n := 0
+	for _, f := range p.Funcs {
+		info := f.Pkg.TypesInfo
+		check := func(site ast.Node, rhs ast.Expr) {
+			n++
+			r := ast.Unparen(rhs)
+			// the caller's pointer itself, directly or through a local bound to it
+			alias := SelField(info, r) == cfgF
+			if v, ok := identObj(info, r).(*types.Var); ok && !v.IsField() {
+				if d := p.singleDef(f, v); d != nil && SelField(info, ast.Unparen(d)) == cfgF {
+					alias = true
+				}
+			}
+			if alias {
+				c.R.Violate("R-COPY/sockcfg", p.Pos(site), f.Name, "store to Client.unixSocketCfg",
+					"the client keeps the caller's *UnixSocketConfig instead of a copy: the socket directory Start creates is written into a structure that every client built from the same configuration shares, so they overwrite each other's directory and Kill removes the wrong one (or none)", nil)
+			} else {
+				c.R.Hold("R-COPY/sockcfg", p.Pos(site), f.Name, "store to Client.unixSocketCfg", "a copy, the address of a local, or a fresh literal", true)
+			}
+		}
+		ast.Inspect(f.Body, func(x ast.Node) bool {
+			switch s := x.(type) {
+			case *ast.AssignStmt:
+				if len(s.Lhs) == len(s.Rhs) {
+					for i, l := range s.Lhs {
+						if SelField(info, l) == fld {
+							check(s, s.Rhs[i])
+						}
+					}
+				}
+			case *ast.KeyValueExpr:
+				if k, ok := s.Key.(*ast.Ident); ok && info.Uses[k] == types.Object(fld) {
+					check(s, s.Value)
+				}
+			}
+			return true
+		})
+	}
+	if n == 0 {
+		c.R.Undecided("R-COPY/sockcfg", "", "instance-floor", "no store to Client.unixSocketCfg found")
 	}
 }
